@@ -18,12 +18,18 @@ vars == <<c, i>>
 \* order, then the neighbours kept from the structure); the product may drop it (centre not stereogenic) but not invert it
 Inversions(q) == Cardinality({ <<a, b>> \in (1..Len(q)) \X (1..Len(q)) : a < b /\ q[a] > q[b] })
 RequestedParity(x) == ((1 - x.raw) + Inversions(x.seq)) % 2      \* (a missing fourth neighbour - the implicit hydrogen - is last in every order)
+\* the one mark of the product sits on an acyclic atom with two substituents of one class and nothing else is marked: not a relative
+\* configuration (C01's gap concerns those) but a mark on a centre that is no stereocentre - it has to go, and the text shows it
+DeadMark(m) == LET cls == Classes(m)
+                   marks == { k \in Nodes(m) : m.atoms[k].p # 2 }
+               IN /\ Cardinality(marks) = 1 /\ Len(m.ct) = 0
+                  /\ \A k \in marks : AmbiguousCentre(m, cls, k) /\ ~\E q \in RingIds(m) : k \in RingAtoms(m, q)
 ApplyV(r) ==
   ApplyVerdict(r.S, r.T, r.mu, r.P)
   \cup If(\E k \in 1..Len(r.req) : r.req[k].n \in Nums(r.P) /\ AtomAt(r.P, r.req[k].n).p \notin {2, RequestedParity(r.req[k])}, "requested-configuration-inverted")
   \cup If(r.nprod # Len(r.images), "number-of-products-is-not-the-number-of-matches")
   \cup If(r.filtered = 1 /\ \E a, b \in 1..Len(r.images) : a < b /\ Rng(r.images[a]) = Rng(r.images[b]), "two-products-for-one-set-of-matched-atoms")
-  \cup If(r.valid = 1 /\ r.bad = 0 /\ ~LeavesOpenValence(r.S, r.T, r.mu) /\ r.rt # 1 /\ InDomainC01(r.Pdom), "product-is-not-the-molecule-its-own-text-denotes")
+  \cup If(r.valid = 1 /\ r.bad = 0 /\ ~LeavesOpenValence(r.S, r.T, r.mu) /\ r.rt # 1 /\ (InDomainC01(r.Pdom) \/ DeadMark(r.Pdom)), "product-is-not-the-molecule-its-own-text-denotes")
   \cup If(r.valid = 1 /\ ~LeavesOpenValence(r.S, r.T, r.mu) /\ (r.bad # 0 \/ ~ValenceValid(r.Pp)), "product-with-a-valence-error")
 IdentityV(r) ==
   If({ Full(a) : a \in Rng(r.S.atoms) } # { Full(a) : a \in Rng(r.P.atoms) } \/ Rng(r.S.bonds) # Rng(r.P.bonds), "identity-template-changes-the-molecule")
